@@ -29,9 +29,9 @@ impl ResponseOutputFormat {
             }
             ResponseOutputFormat::Csv { mapping, sorted } => {
                 let header = if *sorted {
-                    mapping.keys().sorted().join(",")
+                    mapping.keys().sorted().map(|k| csv_escape(k)).join(",")
                 } else {
-                    mapping.keys().rev().join(",")
+                    mapping.keys().rev().map(|k| csv_escape(k)).join(",")
                 };
                 Some(format!("{}\n", header))
             }
@@ -65,7 +65,7 @@ impl ResponseOutputFormat {
                         .iter()
                         .sorted_by_key(|(k, _)| *k)
                         .map(|(k, v)| match v.apply_mapping(response) {
-                            Ok(cell) => cell.to_string(),
+                            Ok(cell) => csv_cell(&cell),
                             Err(msg) => {
                                 errors.insert(k.clone(), msg);
                                 String::from("")
@@ -77,7 +77,7 @@ impl ResponseOutputFormat {
                         .iter()
                         .rev()
                         .map(|(k, v)| match v.apply_mapping(response) {
-                            Ok(cell) => cell.to_string(),
+                            Ok(cell) => csv_cell(&cell),
                             Err(msg) => {
                                 errors.insert(k.clone(), msg);
                                 String::from("")
@@ -110,5 +110,23 @@ impl ResponseOutputFormat {
                 sorted: _,
             } => Some(String::from("\n")),
         }
+    }
+}
+
+/// renders a JSON value as one CSV field: strings by their content, everything else by its
+/// JSON text, quoted when the field contains a separator, quote or line break
+fn csv_cell(cell: &serde_json::Value) -> String {
+    match cell {
+        serde_json::Value::String(s) => csv_escape(s),
+        other => csv_escape(&other.to_string()),
+    }
+}
+
+/// quotes a CSV field (RFC 4180) if it contains a comma, double quote or line break
+fn csv_escape(field: &str) -> String {
+    if field.contains([',', '"', '\n', '\r']) {
+        format!("\"{}\"", field.replace('"', "\"\""))
+    } else {
+        field.to_string()
     }
 }
